@@ -186,7 +186,7 @@ def simulate (cfg : Cfg) (kinds : List Kind) (cls : Class) (n : Nat) (pol : Nat)
         if r.s.toWrite = 0 then r else
         let r' := runPol cfg (if stopFirst then prioStop else prioPipe) (fun s a => noStop s a && noTick a) 1 r
         writes f r'
-    let r1 := if stopFirst then writes fuel { s := s0 } else runPol cfg prioPipe (fun s a => noStop s a && noTick a) fuel { s := s0 }
+    let r1 := if stopFirst then writes fuel { s := s0 } else runPol cfg prio (fun s a => noStop s a && noTick a) fuel { s := s0 }
     predOf (runPol cfg prio all fuel r1)
   | .early =>
     predOf (runPol cfg prio all fuel { s := s0 })
